@@ -1226,8 +1226,8 @@ package gogen
 // type switch clause: the symbol bound in a clause that lists exactly one type has that type; in every other clause
 // (several types, nil, default) it has the type of the switch operand (Go spec "Type switches")
 //@ func (*typeCaseStmt).Then
-//@ prop C03 C16
-//@ requires cb != nil && cb.pkg != nil && cb.current.scope != nil && p.pss != nil && StkWf(cb) && forall(i, 0, len(cb.stk.data), cb.stk.data[i] != nil && cb.stk.data[i].Type != nil)
+//@ prop C03 C16 C09
+//@ requires cb != nil && cb.pkg != nil && cb.pkg.names != nil && cb.current.scope != nil && p.pss != nil && StkWf(cb) && forall(i, 0, len(cb.stk.data), cb.stk.data[i] != nil && cb.stk.data[i].Type != nil)
 //@ requires imp(src != nil, len(src) >= 1)
 //@ loop 0 invariant len(args) == n && imp(rangeidx >= 0, typ == ite(typeis(args[rangeidx].Type, *TypeType), args[rangeidx].Type.(*TypeType).typ, args[rangeidx].Type))
 //@ ensures len(cb.stk.data) == old(cb.current.base)
@@ -1235,6 +1235,7 @@ package gogen
 //@ assertcall@C03 NewParam: imp(n != 1, arg_typ == asI(pss.xType, types.Type))
 //@ assertcall@C03 NewParam: imp(n == 1 && !typeis(args[0].Type, *TypeType), arg_typ == asI(pss.xType, types.Type))
 //@ assertcall@C03 NewParam: arg_name == pss.name && arg_pkg == cb.pkg.Types
+//@ assertcall@C09 Insert: in(cb.pkg.names, pss.name)
 
 // a[i:j] / a[i:j:k] (Go spec "Slice expressions"): operand order in the node (C02), stack arity (C16), result type (C03)
 //@ func (*CodeBuilder).Slice
